@@ -30,7 +30,7 @@ func (C11) Describe() CheckInfo {
 
 var c11Probes = []string{
 	".", "..", "...", ".. | select(. == \"x\")", "sort", "sort_by(.a)", "sort_by(.id)", ".[] | sort_keys(.)", "to_entries", "keys", "length", ".. | tag", "flatten", "unique", "group_by(.a)",
-	".[0]", ".[-1]", ".[1:3]", ".[-2:]", "del(.[0])", "map(.)", "with_entries(.)", "explode(.)", ".. | anchor", "to_json", "@csv", "@tsv", "@base64d", "@base64", "from_yaml", "split_doc", "path(..)", "pivot", "min", "max", "any", "all", "reverse",
+	".[0]", ".[-1]", ".[1:3]", ".[-2:]", "del(.[0])", "map(.)", "with_entries(.)", "explode(.)", ".. | anchor", "to_json", "@csv", "@tsv", "@base64d", "@base64", "from_yaml", "split_doc", ".. | path", "path(..)", "pivot", "min", "max", "any", "all", "reverse",
 	".. style=\"flow\"", ".. |= .", "[.[] | tag]", ".a.b.c = 1", ". * .", ". + .", ". - .", ".[] / 2", ".[] % 2", "[.[] | . * 2]", "... comments=\"\"", ".. | line", ".. | column", "[.. | key]", "[.. | parent]", ".. | parent(3)",
 	"with(.[]; . = 1)", ".[] as $x | $x", ".[] as $x ireduce (0; . + $x)", "map_values(. + 1)", "to_entries | from_entries", "[paths]", "del(..)", "del(.[])", ".[] |= empty", "select(.. == 1)", "unique_by(.a)", "any_c(. == 1)", "all_c(. == 1)",
 	"contains(.)", "has(\"a\")", "has(0)", ".[] | has(0)", "@yaml", "@json", "@xml", "@props", "@sh", "@uri", "@urid", "to_xml", "from_json", "from_xml", "from_props", "from_csv", "from_tsv", "to_number", "to_string", "upcase", "trim", "split(\"\")", "join(\",\")", "sub(\"a\", \"b\")", "test(\".\")", "match(\".\")", "capture(\"(?P<x>.)\")",
